@@ -285,7 +285,84 @@ def make_case(prop, rng, tier, opts=None):
         T = t_in + rng.choice([30, 60, 120, 300])
     else:
         T = rng.choice([20, 40, 80])
+    invalid = None
+    if opts.get("invalid") and rng.random() < opts["invalid"]:
+        invalid = inject_invalid(g, rng)
+        if finite:
+            T = max(T, t_in + 30)
+        else:
+            T = max(T, 20)
     case = {"layer": "B", "T": T, "nodes": g.nodes, "edges": g.edges, "order": order, "connect_order": corder,
             "random_seed": rng.randrange(1 << 30),
             "meta": {"prop": prop, "template": tmpl, "lattice": lat_name, "finite_input": finite, "t_input_end": t_in}}
+    if invalid:
+        case["meta"]["invalid"] = invalid
+    if opts.get("wide"):
+        case["meta"]["wide"] = True
     return case
+
+
+def inject_invalid(g, rng):
+    """Turn a valid model into an invalid one by exactly one defect; returns {"kind", "where"}."""
+    kinds = ["edge-capacity", "buffer-mode", "negative-edge-delay", "negative-processing-delay", "negative-delay-from-callable",
+             "nonblocking-source-zero-iat", "index-out-of-range-in", "index-out-of-range-out", "negative-iat"]
+    rng.shuffle(kinds)
+    for k in kinds:
+        if k == "edge-capacity":
+            c = [e for e in g.edges if e["type"] != "cconv"]      # a continuous conveyor has no capacity parameter
+            if c:
+                e = rng.choice(c)
+                e["cap"] = rng.choice([0, -1, 1.5, "2"])
+                return {"kind": k, "where": e["id"]}
+        if k == "buffer-mode":
+            c = [e for e in g.edges if e["type"] == "buffer"]
+            if c:
+                e = rng.choice(c)
+                e["mode"] = rng.choice(["FILO", "fifo", "RANDOM", ""])
+                return {"kind": k, "where": e["id"]}
+        if k == "negative-edge-delay":
+            c = [e for e in g.edges if e["type"] == "buffer"]
+            if c:
+                e = rng.choice(c)
+                e["delay"] = rng.choice([-1, -0.5])
+                return {"kind": k, "where": e["id"]}
+        if k == "negative-processing-delay":
+            c = [n for n in g.nodes if n["type"] in ("machine", "splitter", "combiner")]
+            if c:
+                n = rng.choice(c)
+                n["pdelay"] = rng.choice([-1, -0.25])
+                return {"kind": k, "where": n["id"]}
+        if k == "negative-delay-from-callable":
+            c = [n for n in g.nodes if n["type"] == "machine"]
+            if c:
+                n = rng.choice(c)
+                n["pdelay"] = {"form": rng.choice(["callable", "generator"]), "vals": [-1]}
+                return {"kind": k, "where": n["id"]}
+        if k == "nonblocking-source-zero-iat":
+            c = [n for n in g.nodes if n["type"] == "source"]
+            if c:
+                n = rng.choice(c)
+                n["blocking"] = False
+                n["iat"] = 0
+                return {"kind": k, "where": n["id"]}
+        if k == "negative-iat":
+            c = [n for n in g.nodes if n["type"] == "source"]
+            if c:
+                n = rng.choice(c)
+                n["iat"] = {"form": "const", "vals": [-1]}
+                return {"kind": k, "where": n["id"]}
+        if k == "index-out-of-range-in":
+            c = [n for n in g.nodes if n["type"] in ("machine", "splitter")]
+            if c:
+                n = rng.choice(c)
+                nin = sum(1 for e in g.edges if e["dst"] == n["id"])
+                n["in_sel"] = rng.choice([nin, nin + 3, -1])
+                return {"kind": k, "where": n["id"]}
+        if k == "index-out-of-range-out":
+            c = [n for n in g.nodes if n["type"] in ("machine", "splitter", "combiner", "source")]
+            if c:
+                n = rng.choice(c)
+                nout = sum(1 for e in g.edges if e["src"] == n["id"])
+                n["out_sel"] = rng.choice([nout, nout + 2, -1])
+                return {"kind": k, "where": n["id"]}
+    return None
